@@ -252,8 +252,15 @@ struct Case {
         dd_edge res(fres.F);
         std::string R = fresh();
         emit("resforest %s", fres.name.c_str());
+        // every fourth / fifth operation is called with the result edge being (a copy of, then the same object as)
+        // one of its operands, as in `apply(PLUS, a, b, b)`: the answer must not depend on that
+        int alias = 0;
+        if (serial % 4 == 1 && b.getForest() == fres.F) alias = 2;
+        else if (serial % 5 == 2 && a.getForest() == fres.F) alias = 1;
         try {
-            apply(o.f, a, b, res);
+            if (alias == 2) { res = b; apply(o.f, a, res, res); STATS.hit("alias.res-is-arg2"); }
+            else if (alias == 1) { res = a; apply(o.f, res, b, res); STATS.hit("alias.res-is-arg1"); }
+            else apply(o.f, a, b, res);
         } catch (error& e) {
             emit("err %s %s %s %s %s", R.c_str(), o.name, an, bn, errName(e));
             emit("note thrown-at %s:%u", e.getFile(), e.getLine());
